@@ -814,6 +814,16 @@ func (e *SpecEnv) call(x *SpecExpr, inOld bool) Val {
 		}
 		dom, _, _, _, _ := vc.mapKeys(mt)
 		return Val{sAnd(sNot(sEq(m.S, "0")), sSelect(sSelect(vc.curIn(st, dom), m.S), k.S)), bt, SBool}
+	case "trunc":
+		// trunc(x): Go's int(x) for a float64 x (linux/amd64: NaN, infinities and out-of-range values give MinInt64)
+		a := e.ex(args[0], inOld)
+		vc.sorts.declareFun("f64.toint", "(F64) Int")
+		t := sx("f64.toint", a.S)
+		tr := sx("fp.to_real", sx("fp.roundToIntegral", "RTZ", a.S))
+		lo, hi := "(- 9223372036854775808)", "9223372036854775807"
+		ok := sAnd(sNot(sx("fp.isNaN", a.S)), sNot(sx("fp.isInfinite", a.S)), sx("<=", sx("to_real", lo), tr), sx("<=", tr, sx("to_real", hi)))
+		e.side = append(e.side, sIte(ok, sEq(sx("to_real", t), tr), sEq(t, lo)))
+		return Val{t, types.Typ[types.Int], SInt}
 	case "runeCount":
 		// runeCount(s): number of characters (code points) of the text s, i.e. len([]rune(s))
 		a := e.ex(args[0], inOld)
